@@ -26,3 +26,24 @@ Proof.
   intros be H. split; [apply ex_all_wf; cbn [In] in H; intuition lia|].
   pose proof (ex_all_runs be H) as R. cbv zeta in R. tauto.
 Qed.
+
+(* ---- tie (a): the decision points the model uses at this place ARE the current C text (Core/CoreLeafLink.v;
+   Gen/LeafCore*.v is re-translated from /repo/src by gen/c2gallina.py on every run of this check) ---- *)
+From Ivv Require Import Base.CSem Gen.LeafCoreFd Gen.LeafCoreTask Gen.LeafCoreMain Gen.LeafCoreEpoll Gen.LeafCorePoll Core.CoreLeafLink.
+
+(* the guards of the three handler calls of a dispatch step (`ready_bands & MASKERR`, `handled_fd != NULL &&
+   ready_bands & MASKIN`, ...) and the accumulation of ready bands in iv_fd_make_ready are the translated C *)
+Theorem C03_dispatch_guards_are_the_code :
+  forall (handled : option Z) rb,
+  core_disp_err rb = Some (has rb M_ERR) /\
+  core_disp_in (ptr_of handled) rb = Some (match handled with Some _ => has rb M_IN | None => false end) /\
+  core_disp_out (ptr_of handled) rb = Some (match handled with Some _ => has rb M_OUT | None => false end).
+Proof. exact dispatch_guards_are_the_code. Qed.
+Print Assumptions C03_dispatch_guards_are_the_code.
+
+Theorem C03_make_ready_is_the_code :
+  forall s k bands, 0 <= bands < 8 ->
+  (mem_z k (active s) = true -> 0 <= ready (getfd s k) < 8) ->
+  make_ready_code s k bands = Some (make_ready s k bands).
+Proof. exact make_ready_is_the_code. Qed.
+Print Assumptions C03_make_ready_is_the_code.
